@@ -785,13 +785,25 @@ func (sc *scenario) checkpoint() bool {
 		closed, cerr := cn.c.Closed()
 		switch {
 		case cn.doomed:
+			served := false
 			if !closed {
+				// no ping is ever outstanding when the driver sends: a pong received after the
+				// forged message answers a ping the server read after it
+				evs := cn.c.Events()
+				for i := len(evs) - 1; i >= 0 && evs[i].Stamp > cn.doomBy.Tick; i-- {
+					if evs[i].M.Str("type") == "pong" {
+						served = true
+						break
+					}
+				}
+			}
+			if !closed && !served {
 				// absorb the window between the server's close and our reader noticing it
 				cn.c.WaitForFrom(cn.c.EventCount(), func(vclient.Msg) bool { return false }, 2*time.Second)
 				closed, cerr = cn.c.Closed()
 			}
 			if !closed {
-				if cn.c.Ping(10 * time.Second) {
+				if served || cn.c.Ping(10*time.Second) {
 					sc.violSend(cn.doomBy, "spoofer-not-disconnected", fmt.Sprintf("%s (really %q) sent a %s claiming source %v / username %v and its connection is still served afterwards",
 						cn.id, cn.user, cn.doomBy.Type, deref(cn.doomBy.Source), deref(cn.doomBy.User)))
 				} else {
